@@ -22,6 +22,14 @@ CHECKS.update({
   'C13': dict(text='The C01 form family compiled as agreement checks: for the same symbolic operand space the real encoder is executed twice, with strict validation on and off, and the solver shows equal acceptance, equal length and equal bytes; the both-accept witness must be reachable for every form the pinned release accepts (vendored list), so a form that silently stops being accepted makes the check fail.',
               ref='3/C13', note='Name round trip (inst_id_to_string/string_to_inst_id) did not reach a verdict within budget and is outside; near-miss mutations are covered only through C14; AArch64 has no operand validator. Family rotated by seed. ' + TRUST),
 })
+CHECKS.update({
+  'C12': dict(text='Database-agreement half of the property: for every harness of the C01 form family (symbolic register ids, memory forms, {k}{z}) the real InstAPI::query_rw_info must report per explicit operand exactly the read/write access of the database record (R:/W:/X:/w:/x:), read access of a merge-masked destination, write/zero-extension over all 8 bytes for 32-bit GP destinations in 64-bit mode, no extension for partial 8/16-bit writes, and the CPU status flags of the record\'s io field.',
+              ref='6.3', note='The hardware-semantics half (executing instructions on the host) is outside: it is not solver-based. Same-register idioms, implicit operands, register-or-memory substitution, CPU features and consecutive-register lead counts are outside. The database (with the listed errata) is the oracle. Family rotated by seed. ' + TRUST),
+  'C15': dict(text='Fault schedules are symbolic: every arena request (malloc-backed arena stub), every malloc/realloc may fail independently, which covers the k-th request failing for every k and all multi-failure patterns in one query per workload. Workloads: BaseBuilder::_emit and node-creating calls, x86 _emit growing the code buffer through the real CodeHolder::grow_buffer (plus fragments added by the owners of the container/holder/allocator checks). Asserted: only kOutOfMemory is reported, the failed call leaves lists/buffers/pointers/one-shot state as they were, and a retry with memory available produces what a failure-free run produces.',
+              ref='6.3', note='Whole compile pipelines (register allocation) are outside; Arena replaced by include/arena_stub.h; libc allocation routed through include/libc_fault.h. ' + TRUST),
+  'C16': dict(text='(a) The real x86::Assembler on_attach/on_detach/on_reinit handlers: an emitter with arbitrary one-shot state and cursor, detached from a holder of either mode and attached to another (or re-initialised), is field-by-field equal to a freshly constructed emitter attached to the same holder. (b) Logger independence on the C01 form family: the real _emit with and without a logger attached returns the same verdict and the same bytes, clears one-shot state, and logs an accepted instruction exactly once.',
+              ref='6.3', note='CodeHolder::reset/reinit themselves, Builder/Compiler attach events and Compiler reuse across functions are outside; formatter/helper function-pointer tables and the instruction logger are stubs. ' + TRUST),
+})
 NOT_APPLICABLE = {
 }
 PENDING = 'solver-based harness not built yet in this round (see DESIGN.md section 3 for the plan)'
